@@ -22,7 +22,7 @@ import xml.etree.ElementTree as et
 from fractions import Fraction
 
 from sim import core, faults as flt, shrink as shr
-from sim.producers import text as ptext, stl as pstl, ttml as pttml
+from sim.producers import text as ptext, stl as pstl, ttml as pttml, scc608 as pscc
 
 core.ensure_repo_on_path()
 
@@ -97,7 +97,12 @@ def read_corpus(rel):
     return f.read()
 
 
-PRODUCERS = {"srt": ptext.srt, "vtt": ptext.vtt, "scc": ptext.scc_simple, "stl": pstl.stl, "ttml": pttml.ttml}
+def _scc(rng):
+  # half the SCC files follow the caption protocols (the encoder and channel of check C08), half are odd sequences
+  return pscc.protocol_file(rng) if rng.random() < 0.5 else ptext.scc_simple(rng)
+
+
+PRODUCERS = {"srt": ptext.srt, "vtt": ptext.vtt, "scc": _scc, "stl": pstl.stl, "ttml": pttml.ttml}
 
 
 # ------------------------------------------------------------------ configurations
